@@ -74,7 +74,7 @@ def replay_set_helpers(r):
     b = np.array(r["inputs"]["ar2"], dtype=np.int32)
     bad = []
     a0, b0 = a.copy(), b.copy()
-    if D.arr_unique(a).tolist() != sorted(set(a.tolist())):
+    if len(a) and D.arr_unique(a).tolist() != sorted(set(a.tolist())):
         bad.append("arr_unique")
     if sorted(set(a.tolist())) == a.tolist() and sorted(set(b.tolist())) == b.tolist():
         if D.arr_union(a, b).tolist() != sorted(set(a.tolist()) | set(b.tolist())):
